@@ -256,6 +256,66 @@ Definition wfuel (es : list entry) : nat := S (S (S (2 * length es))).
 Definition page_walk (es : list entry) (k : nat) (desc : bool) : fr (Z * Z * list Z) :=
   walk (wfuel es) es k desc (if desc then 0 else 1) 0 [].
 
+(* ---- bbs.LoadGeneralArticles as one call: cursor text -> start index -> page ----
+   A cursor is [None] (the empty string: list from the default start) or [Some (T, nm)] - the text
+   "<T>@<article id of M.<T>.A.<nm>>" that DeserializeArticleIdxStr accepted (time and name consistent).  The cursor
+   may come from a page served earlier (and be stale by now) or from the client: any (T, nm). *)
+Definition E_NORECORD : Z := 8.   (* ptt.ErrNoRecord: a cursor on a board whose cached article count is 0 *)
+
+(* bbs.loadGeneralArticlesToStartIdx -> ptt.FindArticleStartIdx -> cmsys.FindRecordStartIdx; an error ends the request *)
+Definition bbs_start (es : list entry) (cur : option (Z * Z)) (desc : bool) : fr Z :=
+  match cur with
+  | None => FOk (if desc then 0 else 1)
+  | Some (T, nm) => if lenZ es =? 0 then FErr E_NORECORD else find es (lenZ es) T (Some nm) desc
+  end.
+
+(* bbs.LoadGeneralArticles(cursor, k, desc): the (SortIdx, entry) pairs of the page and the entry after it *)
+Definition bbs_page (es : list entry) (cur : option (Z * Z)) (k : nat) (desc : bool)
+  : fr (list (Z * entry) * option (Z * entry)) :=
+  fbind (bbs_start es cur desc) (fun s => load_page es s k desc).
+
+(* an article is deleted: its index entry is overwritten in place with a delete-marked (unparsable) one *)
+Fixpoint delete_at (es : list entry) (i : nat) : list entry :=
+  match es, i with
+  | [], _ => []
+  | _ :: r, O => None :: r
+  | e :: r, S i' => e :: delete_at r i'
+  end.
+(* the deletions (page number, 0-based position) scheduled right before page [pg] is requested *)
+Definition apply_dels (es : list entry) (pg : Z) (dels : list (Z * Z)) : list entry :=
+  fold_left (fun acc d => if (fst d =? pg) && (0 <=? snd d) then delete_at acc (Z.to_nat (snd d)) else acc) dels es.
+
+Definition cursor_wire (o : option (Z * entry)) : list Z :=
+  match o with None => [-1; 0] | Some (_, None) => [-2; 0] | Some (_, Some (t, nm)) => [t; nm] end.
+Definition page_wire (p : list (Z * entry) * option (Z * entry)) : list Z :=
+  lenZ (fst p) :: match fst p with [] => 0 | (i, _) :: _ => i end :: cursor_wire (snd p).
+
+(* bbs.LoadGeneralArticles iterated on the cursors it hands out WHILE THE INDEX CHANGES: before page number [pg]
+   (0 = the first) is requested the scheduled deletions are applied.  Result: (how it ended, pages served, visited
+   SortIdx in order, per page [count; first SortIdx; next cursor]). *)
+Fixpoint bwalk (fuel : nat) (es : list entry) (k : nat) (desc : bool) (cur : option (Z * Z)) (pg : Z)
+               (dels : list (Z * Z)) (vis tr : list Z) : fr (Z * Z * list Z * list Z) :=
+  match fuel with
+  | O => FHang
+  | S f =>
+      let es' := apply_dels es pg dels in
+      match bbs_page es' cur k desc with
+      | FHang => FHang
+      | FErr c => FOk (c, pg, vis, tr)
+      | FOk (items, next) =>
+          let vis' := vis ++ map fst items in
+          let tr' := tr ++ page_wire (items, next) in
+          match next with
+          | None => FOk (0, pg + 1, vis', tr')
+          | Some (_, None) => FOk (E_ATOI, pg + 1, vis', tr')
+          | Some (_, Some tn) => bwalk f es' k desc (Some tn) (pg + 1) dels vis' tr'
+          end
+      end
+  end.
+Definition bwfuel (es : list entry) : nat := S (S (S (S (S (S (2 * length es)))))).
+Definition bbs_walk (es : list entry) (k : nat) (desc : bool) (dels : list (Z * Z)) : fr (Z * Z * list Z * list Z) :=
+  bwalk (bwfuel es) es k desc None 0 dels [] [].
+
 (* ---- the specification: a linear scan of the whole file ---- *)
 Definition is_exact (T nm : Z) (e : entry) : bool :=
   match e with Some (t, n) => (t =? T) && (n =? nm) | None => false end.
@@ -280,6 +340,36 @@ Definition find_spec (es : list entry) (T : Z) (name : option Z) (desc : bool) :
   | None => pick (if desc then is_le T else is_ge T) es 1
   end.
 
+(* the page of k entries that starts at position s (1-based) and runs in the listing direction, with the entry after
+   it as the next cursor: what a linear reader of the file lists from s *)
+Fixpoint zseq (d a : Z) (len : nat) : list Z :=
+  match len with O => [] | S l => a :: zseq d (a + d) l end.
+Definition dir (desc : bool) : Z := if desc then -1 else 1.
+(* entries left in the listing direction, counting position idx itself *)
+Definition remn (es : list entry) (desc : bool) (idx : Z) : Z := if desc then idx else lenZ es + 1 - idx.
+Definition getl (es : list entry) (i : Z) : entry := match rd es (i - 1) with FOk e => e | _ => None end.
+Definition tag (es : list entry) (i : Z) : Z * entry := (i, getl es i).
+Definition page_of (es : list entry) (s : Z) (k : nat) (desc : bool) : list (Z * entry) * option (Z * entry) :=
+  if Z.of_nat k <? remn es desc s
+  then (map (tag es) (zseq (dir desc) s k), Some (tag es (s + Z.of_nat k * dir desc)))
+  else (map (tag es) (zseq (dir desc) s (Z.to_nat (remn es desc s))), None).
+
+(* one bbs.LoadGeneralArticles call as the property states it: no cursor - the page from the newest (descending) /
+   the first (ascending) entry; a cursor - the page from the entry the linear scan positions it at, and NOT FOUND when
+   the scan finds no entry in the listing direction (a cursor older than everything when descending, newer than
+   everything when ascending): the listing ends there, it does not start over *)
+Definition bbs_page_spec (es : list entry) (cur : option (Z * Z)) (k : nat) (desc : bool)
+  : fr (list (Z * entry) * option (Z * entry)) :=
+  match cur with
+  | None => if lenZ es =? 0 then FOk ([], None) else FOk (page_of es (if desc then lenZ es else 1) k desc)
+  | Some (T, nm) =>
+      if lenZ es =? 0 then FErr E_NORECORD
+      else match find_spec es T (Some nm) desc with
+           | Some s => FOk (page_of es s k desc)
+           | None => FErr E_NOTFOUND
+           end
+  end.
+
 (* ---- wire ---- *)
 Definition entries_of_wire (l : list Z) : list entry :=
   (fix go (l : list Z) : list entry :=
@@ -288,13 +378,19 @@ Definition entries_of_wire (l : list Z) : list entry :=
      | _ => []
      end) l.
 
+Definition pairs_of_wire (l : list Z) : list (Z * Z) :=
+  (fix go (l : list Z) : list (Z * Z) := match l with a :: b :: r => (a, b) :: go r | _ => [] end) l.
+
 Definition wire_fr {A} (f : A -> list Z) (r : fr A) : list Z :=
   match r with FOk a => ST_OK :: f a | FErr c => [ST_ERR; c] | FHang => [ST_HANG] end.
 
 Definition entry_wire (e : entry) : list Z := match e with Some (t, n) => [t; n] | None => [-1; 0] end.
 
 (* op 1 find: [total T hasname nm desc]; 2 get_record: [total T nm]; 3 get_records: [start n desc];
-   4 page walk: [k desc]; 5 the same walk through bbs.LoadGeneralArticles; 6 find_spec (the reference scan) *)
+   4 page walk: [k desc]; 5 the same walk through bbs.LoadGeneralArticles; 6 find_spec (the reference scan);
+   7 one bbs.LoadGeneralArticles call with a client-supplied cursor: [hascur T nm k desc];
+   8 bbs.LoadGeneralArticles walk with deletions between pages: [k desc] [page pos page pos ...];
+   9 bbs_page_spec (the reference for op 7) *)
 Definition run_case (args : list (list Z)) : list Z :=
   match args with
   | [[1]; es; [total; T; hasname; nm; desc]] =>
@@ -305,6 +401,13 @@ Definition run_case (args : list (list Z)) : list Z :=
               (get_records (entries_of_wire es) start (Z.to_nat n) (negb (desc =? 0)))
   | [[4]; es; [k; desc]] => wire_fr (fun r => fst (fst r) :: snd (fst r) :: snd r) (page_walk (entries_of_wire es) (Z.to_nat k) (negb (desc =? 0)))
   | [[5]; es; [k; desc]] => wire_fr (fun r => fst (fst r) :: snd (fst r) :: snd r) (page_walk (entries_of_wire es) (Z.to_nat k) (negb (desc =? 0)))
+  | [[7]; es; [hascur; T; nm; k; desc]] =>
+      wire_fr page_wire (bbs_page (entries_of_wire es) (if hascur =? 0 then None else Some (T, nm)) (Z.to_nat k) (negb (desc =? 0)))
+  | [[8]; es; [k; desc]; dels] =>
+      wire_fr (fun r => match r with (code, pages, vis, tr) => code :: pages :: lenZ vis :: vis ++ tr end)
+              (bbs_walk (entries_of_wire es) (Z.to_nat k) (negb (desc =? 0)) (pairs_of_wire dels))
+  | [[9]; es; [hascur; T; nm; k; desc]] =>
+      wire_fr page_wire (bbs_page_spec (entries_of_wire es) (if hascur =? 0 then None else Some (T, nm)) (Z.to_nat k) (negb (desc =? 0)))
   | [[6]; es; [T; hasname; nm; desc]] =>
       match find_spec (entries_of_wire es) T (if hasname =? 0 then None else Some nm) (negb (desc =? 0)) with
       | Some i => [ST_OK; i]
